@@ -278,11 +278,34 @@ async fn run_link_history(c: &Value) -> Value {
 // bytes verbatim (possibly none: the client then times out) and optionally drops the link.
 async fn run_client_case(c: &Value) -> Value {
   let path = sock_path("peer");
+  // "unreachable": nobody listens at the client's address (the peer is away for the whole case)
+  if c.get("unreachable").and_then(|v| v.as_bool()).unwrap_or(false) {
+    let client = match S2mClient::new(link_client_config(&c["cfg"], &path)) {
+      Ok(k) => k,
+      Err(e) => return json!({"setup_error": e.to_string()}),
+    };
+    let mut results = Vec::new();
+    for _ in c["calls"].as_array().map(|a| a.len()).into_iter().flat_map(|n| 0..n) {
+      let k2 = client.clone();
+      let t0 = tokio::time::Instant::now();
+      let h = tokio::task::spawn_local(async move { k2.authenticate(AuthRequest { token: StringAtom::from("tok") }).await.is_ok() });
+      let res = match tokio::time::timeout(Duration::from_secs(86_400), h).await {
+        Ok(Ok(true)) => json!("ok"),
+        Ok(Ok(false)) => json!("err"),
+        Ok(Err(_)) => json!("panic"),
+        Err(_) => json!("hung"),
+      };
+      results.push(json!({"result": res, "seen": [], "connects": 0, "elapsed_ms": t0.elapsed().as_millis() as u64}));
+    }
+    let _ = tokio::time::timeout(Duration::from_secs(60), client.shutdown()).await;
+    return json!({"calls": results});
+  }
   let ln = match UnixListener::bind(&path) {
     Ok(l) => l,
     Err(e) => return json!({"setup_error": e.to_string()}),
   };
   let handshake = c.get("handshake").and_then(|v| v.as_str()).map(unhex);
+  let cuts: Vec<usize> = c.get("handshake_cut").and_then(|v| v.as_array()).map(|a| a.iter().filter_map(|x| x.as_u64()).map(|x| x as usize).collect()).unwrap_or_default();
   let replies: Arc<Mutex<VecDeque<Value>>> = Arc::new(Mutex::new(VecDeque::new()));
   let seen: Arc<Mutex<Vec<Value>>> = Arc::new(Mutex::new(Vec::new()));
   let connects: Arc<Mutex<u64>> = Arc::new(Mutex::new(0));
@@ -293,6 +316,7 @@ async fn run_client_case(c: &Value) -> Value {
         let Ok((mut s, _)) = ln.accept().await else { break };
         *connects.lock().unwrap() += 1;
         let (replies, seen, handshake) = (replies.clone(), seen.clone(), handshake.clone());
+        let cuts = cuts.clone();
         tokio::task::spawn_local(async move {
           let mut buf: Vec<u8> = Vec::new();
           let mut tmp = [0u8; 65536];
@@ -315,7 +339,18 @@ async fn run_client_case(c: &Value) -> Value {
               seen.lock().unwrap().push(json!({"handshake": frame}));
               match &handshake {
                 Some(h) => {
-                  let _ = s.write_all(h).await;
+                  // "handshake_cut": offsets at which the reply is cut into separate segments
+                  let mut at = 0usize;
+                  for k in cuts.iter() {
+                    let k = (*k).min(h.len());
+                    if k > at {
+                      let _ = s.write_all(&h[at..k]).await;
+                      let _ = s.flush().await;
+                      tokio::time::sleep(Duration::from_millis(2)).await;
+                      at = k;
+                    }
+                  }
+                  let _ = s.write_all(&h[at..]).await;
                 },
                 None => break 'conn,
               }
@@ -346,6 +381,25 @@ async fn run_client_case(c: &Value) -> Value {
         });
       }
     });
+  }
+  // "init": the server's start-up negotiation with its modulator (narwhal_modulator::init_modulator) against this peer
+  if let Some(init) = c.get("init") {
+    let mut mc = narwhal_modulator::Config::default();
+    mc.r#type = narwhal_modulator::S2M_CLIENT_MODULATOR.to_string();
+    mc.s2m_client = link_client_config(&c["cfg"], &path);
+    let mm = init["c2s_max_message"].as_u64().unwrap_or(8192) as u32;
+    let mp = init["c2s_max_payload"].as_u64().unwrap_or(65536) as u32;
+    let out = match tokio::time::timeout(Duration::from_secs(600), narwhal_modulator::init_modulator(mc, mm, mp, 1)).await {
+      Ok(Ok(mut svc)) => {
+        let o = json!({"init": {"adjusted_max_message": svc.adjusted_max_message_size, "adjusted_max_payload": svc.adjusted_max_payload_size}});
+        let _ = tokio::time::timeout(Duration::from_secs(60), svc.shutdown()).await;
+        o
+      },
+      Ok(Err(e)) => json!({"init_error": e.to_string()}),
+      Err(_) => json!({"init_error": "hung"}),
+    };
+    let _ = std::fs::remove_file(&path);
+    return out;
   }
   let client = match S2mClient::new(link_client_config(&c["cfg"], &path)) {
     Ok(k) => k,
